@@ -8,9 +8,9 @@
    pre-fix code they increment the counter of 5 until it wraps.
 
    A case is printed compactly and expanded here into an ordinary api_case, which is then judged
-   by the unchanged checkers of Check/C03Check.v:
+   by the checkers of Check/C03Check.v and Check/C03StreamCheck.v:
      case = ((size, skip, max), n, outs) ; outs = [(tick output, repeat count); ...] *)
-From IV Require Import Base.Word Model.ReceiveLog Model.NackGen Spec.NackSpec Check.C03Check.
+From IV Require Import Base.Word Model.ReceiveLog Model.NackGen Spec.NackSpec Check.C03Check Check.C03StreamCheck.
 
 Definition wrap_case := ((Z * Z * Z) * Z * list (list (Z * list (Z * Z)) * Z))%type.
 
@@ -35,3 +35,4 @@ Definition wrap_expand (c : wrap_case) : api_case :=
 
 Definition wrap_mismatches (cases : list wrap_case) : list nat := api_mismatches (map wrap_expand cases).
 Definition wrap_spec_failures (cases : list wrap_case) : list (Z * Z) := api_spec_failures (map wrap_expand cases).
+Definition wrap_stream_failures (cases : list wrap_case) : list (Z * Z) := api_stream_failures (map wrap_expand cases).
